@@ -399,7 +399,11 @@ func (s *sim) fresh(cmd string, st Step) *freshResult {
 func diagLines(stderr, p string) []string {
 	var out []string
 	for _, l := range strings.Split(stderr, "\n") {
-		if strings.Contains(l, "$APP/"+p+"/") {
+		i := strings.Index(l, "$APP/"+p+"/")
+		if i < 0 || strings.Contains(l, ": wrote ") {
+			continue
+		}
+		if strings.Contains(l[i:], ".go:") { // file:line:col position
 			out = append(out, l)
 		}
 	}
